@@ -21,6 +21,11 @@ pub fn meta(m: &mut PropMeta) {
 pub const N_POSITIONS: usize = 9;
 
 /// The universe every documented element lives in; the element at `pos` carries `lines`.
+/// Layout of case `idx`: single spaces, CRLF line ends, one token per line (LF) in rotation.
+fn rot_layout(idx: u64) -> Layout {
+    Layout::uniform([Sep::Space, Sep::CrLf, Sep::Newline][(idx % 3) as usize], Commas::None)
+}
+
 fn files_of(p: &Program, layout: &Layout) -> Vec<String> {
     render_program(p, layout).into_iter().map(|r| r.text).collect()
 }
@@ -288,14 +293,14 @@ impl Family for Overviews {
     }
     fn describe(&self, idx: u64) -> Value {
         let p = place_doc((idx % 9) as usize, &self.lines(idx), idx % 2 == 0);
-        let layout = Layout::uniform(if idx % 3 == 0 { Sep::Newline } else { Sep::Space }, Commas::None);
+        let layout = rot_layout(idx);
         json!({"comment_lines": self.lines(idx), "position": idx % 9, "files": files_of(&p, &layout)})
     }
     fn run(&self, idx: u64) -> CaseOut {
         let lines = self.lines(idx);
         let pos = (idx % 9) as usize;
         let p = place_doc(pos, &lines, idx % 2 == 0);
-        let layout = Layout::uniform(if idx % 3 == 0 { Sep::Newline } else { Sep::Space }, Commas::None);
+        let layout = rot_layout(idx);
         let mut out = CaseOut::new(hash_str(&format!("{lines:?}{pos}{}", idx % 6)));
         out.steps = 0;
         out.validated = 1;
@@ -371,7 +376,7 @@ impl Family for Tags {
     }
     fn describe(&self, idx: u64) -> Value {
         let p = place_doc(TAG_POSITIONS[(idx % 11) as usize], &self.forms[(idx / 11) as usize], idx % 2 == 1);
-        json!({"comment_lines": self.forms[(idx / 11) as usize], "position": idx % 11, "files": files_of(&p, &Layout::uniform(Sep::Space, Commas::None))})
+        json!({"comment_lines": self.forms[(idx / 11) as usize], "position": idx % 11, "files": files_of(&p, &rot_layout(idx))})
     }
     fn run(&self, idx: u64) -> CaseOut {
         let lines = &self.forms[(idx / 11) as usize];
@@ -383,7 +388,7 @@ impl Family for Tags {
         out.nontrivial = true;
         // @param on an enumerator: the statement does not say whether that fits (enumerators have fields)
         let skip = pos == 5 && lines.iter().any(|l| l.trim_start().starts_with("@param"));
-        out.class = check_doc_program(&p, &Layout::uniform(Sep::Space, Commas::None), "tags", &mut out, skip);
+        out.class = check_doc_program(&p, &rot_layout(idx), "tags", &mut out, skip);
         out
     }
 }
@@ -429,7 +434,7 @@ impl Family for TagLayouts {
     }
     fn describe(&self, idx: u64) -> Value {
         let p = place_doc(Self::pos(idx), &self.forms[(idx / 2) as usize], idx % 4 == 1);
-        json!({"comment_lines": self.forms[(idx / 2) as usize], "position": Self::pos(idx), "files": files_of(&p, &Layout::uniform(Sep::Space, Commas::None))})
+        json!({"comment_lines": self.forms[(idx / 2) as usize], "position": Self::pos(idx), "files": files_of(&p, &rot_layout(idx))})
     }
     fn run(&self, idx: u64) -> CaseOut {
         let lines = &self.forms[(idx / 2) as usize];
@@ -439,7 +444,7 @@ impl Family for TagLayouts {
         out.steps = 0;
         out.validated = 1;
         out.nontrivial = true;
-        out.class = check_doc_program(&p, &Layout::uniform(Sep::Space, Commas::None), "tag-layouts", &mut out, false);
+        out.class = check_doc_program(&p, &rot_layout(idx), "tag-layouts", &mut out, false);
         out
     }
 }
@@ -587,7 +592,7 @@ impl Family for Malformed {
     fn describe(&self, idx: u64) -> Value {
         let lines: Vec<String> = BAD[(idx / 22) as usize].iter().map(|s| s.to_string()).collect();
         let p = place_doc(((idx / 2) % 11) as usize, &lines, idx % 2 == 1);
-        json!({"comment_lines": BAD[(idx / 22) as usize], "position": (idx / 2) % 11, "healthy_siblings": idx % 2 == 1, "files": files_of(&p, &Layout::uniform(Sep::Space, Commas::None))})
+        json!({"comment_lines": BAD[(idx / 22) as usize], "position": (idx / 2) % 11, "healthy_siblings": idx % 2 == 1, "files": files_of(&p, &rot_layout(idx / 2))})
     }
     fn run(&self, idx: u64) -> CaseOut {
         let lines: Vec<String> = BAD[(idx / 22) as usize].iter().map(|s| s.to_string()).collect();
@@ -597,7 +602,7 @@ impl Family for Malformed {
         out.steps = 0;
         out.validated = 1;
         out.nontrivial = true;
-        out.class = check_doc_program(&p, &Layout::uniform(Sep::Space, Commas::None), "malformed", &mut out, false);
+        out.class = check_doc_program(&p, &rot_layout(idx / 2), "malformed", &mut out, false);
         out
     }
 }
